@@ -11,9 +11,20 @@ Round 2: the geometry functions duplicated in this model are proved equal to the
 full on the fault-free machine (mesh or torus, every size, radius, tape), together with the absence of every
 non-oracle error of `ner_net` / of `route()` on the fault-free machine.
 `aStar_complete` and `aStar_only_disconnected` are proved for every machine.
-NOT proved (validated per case by the oracle): chip-distinctness / connectedness after the repair
-loop (`avoidDeadLinks_valid`, false on the unrepaired code: defect F3), absence of the non-`Disconnected`
-model errors of the repair loop itself (dfs fuel, "Cycle created" assertion) when the dead-link repair runs.
+Round 3 (the repair loop, fixed code `legacy = false`): the forest invariant of `avoid_dead_links` (`L.RInv`:
+one entry per chip, one parent per node, no cycle, component roots = tree root + heads of the broken links not
+yet reconnected, every entry below one of them) is established by the disconnecting copy and preserved by the
+reconnection of one broken link for every A* outcome (detours through the orphaned subtree included) and every
+processing order; `avoidDeadLinks_valid`: whenever `routeNet` returns after a repair the forest unfolds to a tree
+satisfying ALL clauses of `ValidTree`; `route_only_failure` for every machine: the only non-oracle error is
+`Disconnected`, and none on a strongly connected machine; `stronglyConnected` is proved complete as well as
+sound; `legacy_two_parents_witness`: the unfixed loop really yields a node with two parent links.
+`routeNet_valid`: with the source and the destinations on working chips, EVERY successful run of the model of
+`route()` (repair entered or not, any machine) returns a valid routing tree (for the unrepaired case on a machine
+with faults this needs `nerNet_leaves_are_dests`: childless nodes of the `ner_net` forest are destinations).
+Nothing about the model of the fixed code is left unproved; what is validated (not proved) is the correspondence
+of the model with the Python code (stage-wise differential testing with recorded tapes and set orders) and that
+`route()` treats the nets of a call independently.
 -/
 import RigModel.Model.C03
 import RigModel.Lemmas.C03Tree
@@ -32,6 +43,8 @@ import RigModel.Lemmas.C03RepairValid
 import RigModel.Lemmas.C03RepairTotal
 import RigModel.Lemmas.C03CopyTotal
 import RigModel.Lemmas.C03RouteTotal
+import RigModel.Lemmas.C03StrongComplete
+import RigModel.Lemmas.C03NerLeaf
 import RigModel.Props.Cross03_11
 set_option linter.unusedSimpArgs false
 set_option linter.unusedVariables false
@@ -118,7 +131,8 @@ theorem routeNet_repaired_live (m : Machine) (src : Chip) (dests : List Chip) (r
     ForestLive m r.forest :=
   L.routeNet_repaired_live m src dests radius t order sinks legacy r h hr
 
-/- Full statement aimed at (DESIGN 3/C03), NOT proved (and false for `legacy = true`, defect F3):
+/- Full statement aimed at (DESIGN 3/C03) - proved in round 3 as `routeNet_valid` / `avoidDeadLinks_valid` below
+   (it is false for `legacy = true`, defect F3: `legacy_two_parents_witness`); at the time of this theorem:
    theorem routeNet_valid : routeNet m src dests radius t order sinks false = .ok r →
      (placements on working chips, dests = chips of the sinks) →
      toTree r.forest r.leaves n r.root = some t → ValidTree m src sinks t
@@ -559,5 +573,76 @@ example : (match routeNet ⟨3, 1, [(1, 0)], [((2, 0), 0), ((2, 0), 1), ((2, 0),
       | _ => false) = true ∧
     chipOk ⟨3, 1, [(1, 0)], [((2, 0), 0), ((2, 0), 1), ((2, 0), 5), ((2, 0), 2), ((2, 0), 4),
       ((0, 0), 3), ((0, 0), 4), ((0, 0), 2), ((0, 0), 1), ((0, 0), 5)]⟩ (2, 0) = true := by decide +kernel
+
+/-! ## Round 3: the strong-connectivity oracle is complete -/
+
+/-- **The strong-connectivity oracle is complete.**  If `stronglyConnected m` evaluates to false, there are two
+working chips of which the first does not reach the second over working links between working chips (the
+breadth-first closure with fuel `w*h + 1` always ends with an empty frontier). -/
+theorem stronglyConnected_complete (m : Machine) (hs : stronglyConnected m = false) :
+    ∃ a b, chipOk m a = true ∧ chipOk m b = true ∧ ¬ Reach m a b :=
+  L.stronglyConnected_complete m hs
+
+/-- the executable predicate decides "every working chip reaches every working chip" -/
+theorem stronglyConnected_iff (m : Machine) :
+    stronglyConnected m = true ↔ ∀ a b, chipOk m a = true → chipOk m b = true → Reach m a b := by
+  constructor
+  · intro hs a b ha hb; exact stronglyConnected_sound m hs a b ha hb
+  · intro h
+    cases hs : stronglyConnected m with
+    | true => rfl
+    | false =>
+      obtain ⟨a, b, ha, hb, hn⟩ := stronglyConnected_complete m hs
+      exact absurd (h a b ha hb) hn
+
+/-- **The error clause of the property, for the model**: if `route()` (fixed repair loop) raises
+`MachineHasDisconnectedSubregion` on a net placed on working chips, then the machine really has two working
+chips of which one cannot reach the other over working links. -/
+theorem route_disconnected_is_real (m : Machine) (src : Chip) (dests : List Chip) (radius : Nat) (t : Tape)
+    (order : List (Chip × Chip)) (sinks : List Sink)
+    (hs : chipOk m src = true) (hd : ∀ d, d ∈ dests → InRange m d)
+    (hsk : ∀ s, s ∈ sinks → (s.chip = src ∨ s.chip ∈ dests) ∧ chipOk m s.chip = true)
+    (h : routeNet m src dests radius t order sinks false = .error .disconnected) :
+    ∃ a b, chipOk m a = true ∧ chipOk m b = true ∧ ¬ Reach m a b :=
+  stronglyConnected_complete m ((route_only_failure m src dests radius t order sinks hs hd hsk _ h).2 rfl)
+
+/-- non-vacuity: the 3 x 1 machine above is not strongly connected -/
+example : stronglyConnected ⟨3, 1, [(1, 0)], [((2, 0), 0), ((2, 0), 1), ((2, 0), 5), ((2, 0), 2), ((2, 0), 4),
+      ((0, 0), 3), ((0, 0), 4), ((0, 0), 2), ((0, 0), 1), ((0, 0), 5)]⟩ = false := by decide +kernel
+
+/-! ## Round 3: every successful run returns a valid routing tree -/
+
+/-- **Childless nodes of the `ner_net` forest are the source or destination chips** (every route hung below the
+tree ends at its destination) - any w, h ≥ 1, radius, tape, destination order. -/
+theorem nerNet_leaves_are_dests (src : Chip) (dests : List Chip) (w h : Nat) (wrap : Bool) (radius : Nat)
+    (t t' : Tape) (f : Forest) (hs : Cross.InBox w h src) (hd : ∀ d, d ∈ dests → Cross.InBox w h d)
+    (hn : nerNet src dests w h wrap radius t = .ok (f, t')) :
+    ∀ n, n ∈ f → n.2 = [] → n.1 = src ∨ n.1 ∈ dests := by
+  have hw : 1 ≤ w := by have := hs.1; have := hs.2.1; omega
+  have hh : 1 ≤ h := by have := hs.2.2.1; have := hs.2.2.2; omega
+  exact L.nerNet_leaf hw hh hs hd hn
+
+/-- **`routeNet_valid`: every successful run of `route()` (fixed repair loop) returns a valid routing tree**, on
+every machine - dead chips and links anywhere, repair entered or not - for every net whose source and
+destination chips are working chips, every radius, tape, destination order and broken-link order: the result is
+rooted at the source chip and unfolds (with the fuel the driver / oracle use) to a tree satisfying all five
+clauses of `ValidTree`.  (That the leaves are exactly the sinks includes: every sink chip is on the tree.) -/
+theorem routeNet_valid (m : Machine) (src : Chip) (dests : List Chip) (radius : Nat) (t : Tape)
+    (order : List (Chip × Chip)) (sinks : List Sink) (r : Result)
+    (hs : chipOk m src = true) (hd : ∀ d, d ∈ dests → chipOk m d = true)
+    (h : routeNet m src dests radius t order sinks false = .ok r) :
+    r.root = src ∧
+    ∃ tr, toTree r.forest r.leaves (r.forest.length + 1) r.root = some tr ∧ ValidTree m src sinks tr := by
+  cases hr : r.repaired with
+  | true =>
+    obtain ⟨tr, h1, h2, _⟩ := avoidDeadLinks_valid m src dests radius t order sinks r h hr
+    exact ⟨(L.routeNet_repaired_inv m src dests radius t order sinks r h hr).1, tr, h1, h2⟩
+  | false => exact L.routeNet_unrepaired_valid m src dests radius t order sinks false r hs hd h hr
+
+/-- non-vacuity of the unrepaired case on a machine with faults: 3x3 with a dead chip and dead links off the route -/
+example : (match routeNet ⟨3, 3, [(2, 2)], [((1, 1), 0), ((0, 2), 3)]⟩ (0, 0) [(1, 0)] 1 [0, 0, 0, 0, 0, 0, 0] []
+      [⟨1, (1, 0), 1, 2, 4⟩] false with
+    | .ok r => !r.repaired && (toTree r.forest r.leaves 10 r.root).isSome
+    | .error _ => false) = true := by decide +kernel
 
 end Rig.C03
